@@ -132,7 +132,7 @@ CHECKS = {
                 "Conn::{run,handle_request}: every overflow / division / unwrap / index / explicit panic there is discharged by an interval, a guard or a frozen, reasoned "
                 "allow-list entry; handler and parse errors are mapped to SimpleError replies and no io::Error is constructed in the request path. The comparison with the "
                 "reference event-store model (versions, has_more flags) is not decided.",
-        "note": NOTE + " The allow-list (16 entries) is part of the trusted base; each entry names one (function, site, occurrence) with its reason and is printed in the evidence.",
+        "note": NOTE + " The allow-list (14 entries) is part of the trusted base; each entry names one (function, site, occurrence) with its reason and is printed in the evidence.",
         "technique": "static analysis: panic audit with intervals and a frozen allow-list, error-mapping shape rules on MIR",
     },
     "C04": {
